@@ -44,3 +44,50 @@ Qed.
 
 Lemma src_triangle_translate_eq t d : tri_of (src_Triangle_translate t d) = tri_translate (tri_of t) d.
 Proof. destruct t as [[[a b] c]]. reflexivity. Qed.
+
+(* ---- round 5: constructors / accessors of Sector and Arc against the circle they are built on; translate; the areas keep the angles ---- *)
+Lemma src_sector_new_eq t d a w : src_Sector_new t d a w = Build_Sector t d a w.
+Proof. reflexivity. Qed.
+Lemma src_sector_with_center_eq c d a w : 0 <= d <= u32_max ->
+  src_Sector_with_center c d a w = Build_Sector (tl (with_center c (S d d))) d a w.
+Proof.
+  intros Hd. unfold src_Sector_with_center. cbv zeta. rewrite src_Size_new_equal_eq.
+  rewrite src_Rectangle_with_center_eq by (split; exact Hd). reflexivity.
+Qed.
+Lemma src_sector_bounding_box_eq s : src_Sector_bounding_box s = circle_bbox (src_Sector_to_circle s).
+Proof. reflexivity. Qed.
+Lemma src_sector_center_eq s : 0 <= Sector_diameter s <= u32_max -> src_Sector_center s = circle_center (src_Sector_to_circle s).
+Proof.
+  intros Hd. unfold src_Sector_center, circle_center. rewrite src_sector_bounding_box_eq.
+  apply src_Rectangle_center_eq. split; exact Hd.
+Qed.
+Lemma src_sector_center_2x_eq s : 0 <= Sector_diameter s <= i32_max -> src_Sector_center_2x s = circle_center_2x (src_Sector_to_circle s).
+Proof. intros Hd. rewrite <- (src_Circle_center_2x_eq (src_Sector_to_circle s)) by exact Hd. reflexivity. Qed.
+Lemma src_sector_translate_eq s d :
+  src_Sector_translate s d = Build_Sector (padd (Sector_top_left s) d) (Sector_diameter s) (Sector_angle_start s) (Sector_angle_sweep s).
+Proof. reflexivity. Qed.
+
+Lemma src_arc_new_eq t d a w : src_Arc_new t d a w = Build_Arc t d a w.
+Proof. reflexivity. Qed.
+Lemma src_arc_from_circle_eq c a w : src_Arc_from_circle c a w = Build_Arc (c_tl c) (c_d c) a w.
+Proof. reflexivity. Qed.
+Lemma src_arc_to_circle_eq a : src_Arc_to_circle a = Circ (Arc_top_left a) (Arc_diameter a).
+Proof. reflexivity. Qed.
+Lemma src_arc_bounding_box_eq a : src_Arc_bounding_box a = circle_bbox (src_Arc_to_circle a).
+Proof. reflexivity. Qed.
+Lemma src_arc_translate_eq a d :
+  src_Arc_translate a d = Build_Arc (padd (Arc_top_left a) d) (Arc_diameter a) (Arc_angle_start a) (Arc_angle_sweep a).
+Proof. reflexivity. Qed.
+
+Lemma src_stroke_area_sector_angles st s : 0 <= Sector_diameter s <= u32_max -> 0 <= stroke_width st ->
+  Sector_angle_start (src_stroke_area_Sector st s) = Sector_angle_start s /\ Sector_angle_sweep (src_stroke_area_Sector st s) = Sector_angle_sweep s.
+Proof.
+  intros Hd Hs. unfold src_stroke_area_Sector. cbv zeta. rewrite src_stroke_offset_eq.
+  apply (src_sector_offset_eq s _ Hd). apply stroke_offset_range. exact Hs.
+Qed.
+Lemma src_fill_area_sector_angles st s : 0 <= Sector_diameter s <= u32_max -> 0 <= stroke_width st ->
+  Sector_angle_start (src_fill_area_Sector st s) = Sector_angle_start s /\ Sector_angle_sweep (src_fill_area_Sector st s) = Sector_angle_sweep s.
+Proof.
+  intros Hd Hs. unfold src_fill_area_Sector. cbv zeta. rewrite src_fill_offset_eq.
+  apply (src_sector_offset_eq s _ Hd). apply fill_offset_range. exact Hs.
+Qed.
